@@ -593,7 +593,12 @@ impl Arena {
       let next_node = next.load(Ordering::Acquire);
       let (next_node_size, next_next_offset) = decode_segment_node(next_node);
       if next_node_size == REMOVED_SEGMENT_NODE {
+        // the next node is being (or has been) removed: the word we hold for the current node may be
+        // stale for ever, so search again from the head instead of re-reading the removed node.
         backoff.snooze();
+        current = &header.sentinel;
+        current_node = current.load(Ordering::Acquire);
+        (current_node_size, next_offset) = decode_segment_node(current_node);
         continue;
       }
 
